@@ -7,8 +7,8 @@ under /verif/seeded/<Cxx>/.  Steps (all in a scratch worktree outside /repo and 
 import json, os, shutil, subprocess, sys, time
 pid = sys.argv[1]
 checks = sys.argv[2:] or [pid]
-src = '/tmp/mut/%s.out' % pid
-dst = '/verif/seeded/%s' % pid
+src = '%s/%s.out' % (os.environ.get('MUT_ROOT', '/tmp/mut'), pid)
+dst = '/verif/seeded/%s%s' % (pid, os.environ.get('SEED_SUFFIX', ''))
 wt = '/tmp/seedwt-%s' % pid
 DESEL = ['--deselect', 'tests/integration', '--deselect', 'tests/http/proxy/test_http2.py', '--deselect', 'tests/http/test_client.py',
          '--deselect', 'tests/test_grout.py', '--deselect', 'tests/test_main.py::TestProxyContextManager']
